@@ -42,7 +42,7 @@ def vlib_strip_go_comments(src):
 class P(vlib.Prop):
     pid = "C18"
     coq_dirs = ["Common", "C18"]   # + Generated/MemLimiter18.v and Generated/C18Api*.v, gated in extra_checks
-    coq_targets = ["C18/Properties.vo", "C18/Witness.vo", "C18/Harness.vo"]
+    coq_targets = ["C18/Properties.vo", "C18/Witness.vo", "C18/Harness.vo", "C18/Clauses.vo"]
     properties_module = "C18.Properties"
     properties_file = "C18/Properties.v"
     instance_obligations = []
@@ -165,8 +165,86 @@ class P(vlib.Prop):
         if bad:
             raise vlib.Broken("source obligation (single checker goroutine / single writer) fails", "\n".join(bad))
 
+    CLAUSE_NAMES = {
+        1: "refuse-iff-soft", 2: "gc-when-not-due", 3: "gc-missing-when-due", 4: "gc-more-than-once", 5: "lastgc-update",
+        6: "refusing-not-refused", 7: "forwarding-differs-from-mode", 8: "downstream-result-not-returned",
+        9: "must-refuse-query", 10: "start-shutdown-error", 11: "refcount", 12: "goroutine-iff-users",
+        13: "checker-runs-iff-users", 14: "tick-without-users", 15: "no-tick-with-users",
+        16: "last-shutdown-and-check-in-flight", 17: "check-begins-iff-users", 18: "check-ends-iff-in-flight",
+        20: "limits-wellformed", 21: "validate-accepts-bad-config", 22: "limiter-sharing",
+        98: "operation-observation-shapes-differ", 99: "history-lengths-differ"}
+
+    def clause_oracle(self, ctx):
+        """Independent oracle (C18/Clauses.v): the property's clauses decided inside Coq over the OBSERVED behaviour of
+        every recorded case, without the model's step functions.  A violated clause is a failing input."""
+        import re
+        terms = [c["term"] for c in ctx.cases]
+        if not terms:
+            return
+        t0 = vlib.time.time()
+        failing = vlib.coq_eval_cases(ctx, "C18.Clauses", "prop_ok", self.case_type, terms, shard=250)
+        seen = set()
+        nviol = 0
+        for i in failing:
+            nviol += 1
+            if len(seen) >= 6:
+                continue
+            out = vlib.coq_eval_term(ctx, "C18.Clauses", "violations %s" % terms[i])
+            codes = [int(x) for x in re.findall(r"\d+", out.split("=", 1)[-1].split(":")[0])]
+            kinds = sorted({self.CLAUSE_NAMES.get(c, "clause-%d" % c) for c in codes}) or ["clause-unknown"]
+            if kinds[0] in seen:
+                continue
+            seen.add(kinds[0])
+            ctx.oracle.append({"kind": "clause:" + kinds[0], "term": terms[i], "harness": ctx.cases[i]["harness"],
+                               "detail": "C18/Clauses.v violations = %s (%s) on the observed behaviour" % (codes, ", ".join(kinds))})
+        ctx.extra_coverage["clause_oracle"] = {"cases_checked": len(terms), "cases_violating_a_clause": nviol,
+                                               "disagreeing_cases_violating_a_clause":
+                                                   len({m["term"] for m in ctx.mismatches} & {terms[i] for i in failing}),
+                                               "wall_s": round(vlib.time.time() - t0, 1)}
+
+    def domain_search(self, ctx):
+        """(C2) An obligation over a translated function broke: enumerate a finite domain (C18/Diff.v) for an argument on
+        which the definition generated from the current source differs from its specification twin, and run the
+        implementation on a history that uses that argument (core harness, VERIF_FOCUS)."""
+        import re
+        if not any(("coq proof" in w or "translator" in w) for w, _ in ctx.broken):
+            return
+        try:
+            vlib.coq_make(ctx, ["C18/Diff.vo"])
+        except vlib.Broken:
+            return
+        focus, found = [], {}
+        def nums(name):
+            out = vlib.coq_eval_term(ctx, "C18.Diff", name)
+            body = out.split("=", 1)[-1].rsplit(":", 1)[0]
+            found[name] = " ".join(body.split())[:400]
+            return body
+        for m in re.finditer(r"\((-?\d+),\s*(-?\d+),\s*(-?\d+)\)", nums("diff_limit_predicates")):
+            focus.append("soft:%s,%s,%s" % m.groups())
+        for m in re.finditer(r"\((-?\d+),\s*(-?\d+)\)", nums("diff_fixed_checker")):
+            focus.append("cfg:1000000000,0,0,%d,%d,0,0" % (int(m.group(1)) >> 20, int(m.group(2)) >> 20))
+        for m in re.finditer(r"\((-?\d+),\s*(-?\d+),\s*(-?\d+)\)", nums("diff_pct_checker")):
+            focus.append("cfg:1000000000,0,0,0,0,%s,%s,%s" % (m.group(2), m.group(3), m.group(1)))
+        for m in re.finditer(r"c_check := (-?\d+);\s*c_soft_int := (-?\d+);\s*c_hard_int := (-?\d+);\s*c_limit_mib := (-?\d+);"
+                             r"\s*c_spike_mib := (-?\d+);\s*c_limit_pct := (-?\d+);\s*c_spike_pct := (-?\d+)", nums("diff_validate")):
+            focus.append("cfg:%s,%s,%s,%s,%s,%s,%s" % m.groups())
+        nums("diff_must_refuse")
+        ctx.extra_coverage["domain_search"] = {"differing_arguments": found, "focus_runs": focus[:6]}
+        core = self.harnesses[0]
+        for fo in focus[:6]:
+            h = vlib.Harness("focus", core.module, core.pkg, core.files, core.run, core.gopkg, timeout=120,
+                             extra_env={"VERIF_FOCUS": fo})
+            cases, oracle, stats, err = vlib.run_harness(ctx, h, tier="focus")
+            for f in oracle:
+                f["detail"] = "[argument found by domain enumeration, VERIF_FOCUS=%s] %s" % (fo, f["detail"])
+                ctx.oracle.append(f)
+
     def extra_checks(self, ctx):
-        self.source_obligations(ctx)
+        try:
+            self.clause_oracle(ctx)
+            self.domain_search(ctx)
+        finally:
+            self.source_obligations(ctx)
         # grep gate for this property's own generated file only (not the whole Generated directory)
         bad = []
         for gen in ("MemLimiter18.v", "C18ApiExt.v", "C18ApiProc.v"):
